@@ -102,13 +102,20 @@ func spec_vrTxOther(v ValueRef) uint64 {
 //@   ensures failed: err != nil && !isErr(err, tbtree.ErrKeyNotFound) ==> !r0 && r1 == err
 //@   assigns internal
 
+// spec_errKeyNotFound: the package variable ErrKeyNotFound. Written as a spec function because a bare `ErrKeyNotFound` in
+// an ensures clause of a function whose body mentions the variable resolves to the body's (block-scoped) load of it:
+// at a return site that this load does not dominate the engine substitutes an unconstrained `outofscope_` value.
+func spec_errKeyNotFound() error {
+	return ErrKeyNotFound
+}
+
 // KeyNotModifiedAfterTx: the latest entry of the key INCLUDING deleted and expired ones (GetWithFilters without
 // filters) has Tx() <= TxID; a key the index does not know at all counts as not modified.
 //@ func (*PreconditionKeyNotModifiedAfterTx).Check
 //@   requires idx != nil
 //@   ensures def: err == nil ==> r1 == nil && (r0 == (spec_vrTx(valRef) <= cs.TxID))
-//@   ensures absent: err != nil && isErr(err, ErrKeyNotFound) ==> r0 && r1 == nil
-//@   ensures failed: err != nil && !isErr(err, ErrKeyNotFound) ==> !r0 && r1 == err
+//@   ensures absent: err != nil && isErr(err, spec_errKeyNotFound()) ==> r0 && r1 == nil
+//@   ensures failed: err != nil && !isErr(err, spec_errKeyNotFound()) ==> !r0 && r1 == err
 //@   assigns internal
 
 // ---------------------------------------------------------------------------------------------------------
@@ -196,6 +203,7 @@ func spec_cells() bool {
 //@ func (*Snapshot).GetWithFilters
 //@   requires s.snap != nil && s.st != nil
 //@   ensures found: err == nil ==> valRef != nil && spec_vrKnown(valRef)
+//@   ensures isfresh: err == nil ==> fresh(valRef)
 //@   ensures tick: verif_g.evals.n == old(verif_g.evals.n) + 1
 //@   ensures nf_t: err != nil && isErr(err, ErrKeyNotFound) ==> verif_g.evals.nf == 1
 //@   ensures nf_f: !(err != nil && isErr(err, ErrKeyNotFound)) ==> verif_g.evals.nf == 0
@@ -205,6 +213,7 @@ func spec_cells() bool {
 //@ func (*Snapshot).GetWithPrefixAndFilters
 //@   requires s.snap != nil && s.st != nil
 //@   ensures found: err == nil ==> valRef != nil && spec_vrKnown(valRef)
+//@   ensures isfresh: err == nil ==> fresh(valRef)
 //@   ensures tick: verif_g.evals.n == old(verif_g.evals.n) + 1
 //@   ensures nf_t: err != nil && isErr(err, ErrKeyNotFound) ==> verif_g.evals.nf == 1
 //@   ensures nf_f: !(err != nil && isErr(err, ErrKeyNotFound)) ==> verif_g.evals.nf == 0
@@ -253,12 +262,13 @@ func spec_cells() bool {
 //       returned (true, nil);
 //   snaps_all_examined: nil (for a tx with a read set) only if EVERY snapshot of the transaction was examined
 //       (its Ts() compared with the last precommitted id; the ghost counts the Ts() calls), i.e. no snapshot's
-//       expectations were skipped without even looking at the snapshot. FAILS at the `return nil` inside the
-//       snapshot loop (genuine defect, see notes): the loop stops at the first up-to-date snapshot;
+//       expectations were skipped without even looking at the snapshot. Before the fix of ongoing_tx.go:810
+//       (`return nil` inside the snapshot loop, now `continue`; genuine defect found with this clause, see notes) it
+//       failed at that return: the loop stopped at the first up-to-date snapshot;
 //   evals_all: one re-evaluation per recorded POINT-READ expectation (expectedGets, expectedGetsWithPrefix; the
 //       reader and fingerprint loops are not counted: with them the loop-2 back edge was not decided within
 //       500 s), stated for the case that
-//       exactly one sync snapshot was opened and its prefix is empty (a store without multi-indexing: one index,
+//       exactly one sync snapshot was opened (the other snapshots of the tx, if any, were up to date and skipped) and its prefix is empty (one index,
 //       every expectation matches its prefix). A kind that is skipped or left early makes the sum fall short;
 //   frame (`assigns`): nothing but the ghost counters is written, whatever the outcome ("leaves no trace").
 //@ func (*OngoingTx).checkPreconditions
@@ -272,15 +282,15 @@ func spec_cells() bool {
 //@   ensures prec_all_passed: r0 == nil ==> verif_g.passed.n == old(verif_g.passed.n) + len(tx.preconditions)
 //@   ensures snaps_all_examined: r0 == nil && tx.mode != WriteOnlyTx ==> verif_g.tss.n == old(verif_g.tss.n) + len(tx.snapshots)
 //@   ensures evals_all: r0 == nil && tx.mode != WriteOnlyTx && verif_g.sync.n == old(verif_g.sync.n) + 1 && verif_g.sync.pfx == 0
-//@     ==> verif_g.evals.n == old(verif_g.evals.n) + len(tx.mvccReadSet.expectedGets) + len(tx.mvccReadSet.expectedGetsWithPrefix) + 1
+//@     ==> verif_g.evals.n == old(verif_g.evals.n) + len(tx.mvccReadSet.expectedGets) + len(tx.mvccReadSet.expectedGetsWithPrefix)
 //@   assigns verif_g.checks, verif_g.passed, verif_g.tss, verif_g.sync, verif_g.evals
 //@   loop 1 invariant checks: verif_g.checks.n == old(verif_g.checks.n) + rangeindex + 1
 //@   loop 1 invariant passed: verif_g.passed.n == old(verif_g.passed.n) + rangeindex + 1
 //@   loop 1 assigns verif_g.checks, verif_g.passed
 //@   loop 2 invariant tss: verif_g.tss.n == old(verif_g.tss.n) + rangeindex + 1
-//@   loop 2 invariant syncs: verif_g.sync.n == old(verif_g.sync.n) + rangeindex + 1
-//@   loop 2 invariant zero: rangeindex == -1 ==> verif_g.evals.n == old(verif_g.evals.n)
-//@   loop 2 invariant one: rangeindex == 0 && verif_g.sync.pfx == 0 ==> verif_g.evals.n == old(verif_g.evals.n) + len(tx.mvccReadSet.expectedGets) + len(tx.mvccReadSet.expectedGetsWithPrefix)
+//@   loop 2 invariant syncs: 0 <= verif_g.sync.n - old(verif_g.sync.n) && verif_g.sync.n - old(verif_g.sync.n) <= rangeindex + 1
+//@   loop 2 invariant zero: verif_g.sync.n == old(verif_g.sync.n) ==> verif_g.evals.n == old(verif_g.evals.n)
+//@   loop 2 invariant one: verif_g.sync.n == old(verif_g.sync.n) + 1 && verif_g.sync.pfx == 0 ==> verif_g.evals.n == old(verif_g.evals.n) + len(tx.mvccReadSet.expectedGets) + len(tx.mvccReadSet.expectedGetsWithPrefix)
 //@   loop 2 assigns verif_g.tss, verif_g.sync, verif_g.evals
 //@   loop 3 invariant evals: verif_g.sync.n == old(verif_g.sync.n) + 1 && verif_g.sync.pfx == 0 ==> verif_g.evals.n == old(verif_g.evals.n) + rangeindex + 1
 //@   loop 3 assigns verif_g.evals
@@ -430,7 +440,7 @@ func spec_cells() bool {
 //@   ensures nonnil: r1 == nil ==> r0 != nil && r0.tx == tx && r0.expectedReader != nil
 //@   ensures recorded: r1 == nil ==> len(tx.mvccReadSet.expectedReaders) == old(len(tx.mvccReadSet.expectedReaders)) + 1
 //@   ensures recorded_last: r1 == nil ==> tx.mvccReadSet.expectedReaders[len(tx.mvccReadSet.expectedReaders)-1] == r0.expectedReader
-//@   ensures recorded_size: r1 == nil ==> tx.mvccReadSet.readsetSize == old(tx.mvccReadSet.readsetSize) + 1
+//@   ensures account: len(tx.mvccReadSet.expectedReaders) - old(len(tx.mvccReadSet.expectedReaders)) == tx.mvccReadSet.readsetSize - old(tx.mvccReadSet.readsetSize)
 //@   ensures wf: r1 == nil ==> r0.keyReader != nil && r0.expectedReader.i == 0 && len(r0.expectedReader.expectedReads) == 1
 //@   ensures failed: r1 != nil ==> r0 == nil && len(tx.mvccReadSet.expectedReaders) == old(len(tx.mvccReadSet.expectedReaders)) && tx.mvccReadSet.readsetSize == old(tx.mvccReadSet.readsetSize)
 //@   ensures limit: old(tx.mvccReadSet.readsetSize) == tx.st.mvccReadSetLimit ==> r1 == ErrMVCCReadSetLimitExceeded
@@ -485,7 +495,7 @@ func spec_ovr(v ValueRef) *ongoingValRef {
 }
 
 //@ func (*OngoingTx).snap$1
-//@   requires valRef != nil
+//@   requires valRef != nil && tx != nil
 //@   ensures passthrough: !ok ==> r0 == valRef
 //@   ensures own_tx0: ok ==> spec_vrTx(r0) == 0
 //@   ensures own_ref: ok ==> spec_ovr(r0) != nil && fresh(spec_ovr(r0))
